@@ -501,6 +501,7 @@ func runLayerConcurrent(rc *kit.RunCtx) {
 		c.byGoid[ct.goid] = ct
 	}
 	c.store.hook = c.hook
+	c.store.openHook = func(b db.BucketID) error { return c.hook(kOpen, b, nil) }
 
 	steps := 0
 	for !c.failed {
@@ -539,6 +540,7 @@ func runLayerConcurrent(rc *kit.RunCtx) {
 		c.flushStep()
 	}
 	c.store.hook = nil
+	c.store.openHook = nil
 	c.shutdown()
 	if c.failed {
 		return
